@@ -148,6 +148,15 @@ class SoapClientAsync:
 
         finally:
             self.roundtrip_time = time.perf_counter() - started  # set roundtrip time even if method raises an exception
+        if resp.status >= 300:  # noqa: PLR2004
+            # an HTTP error is a failed delivery, whatever the body is (as in the synchronous SoapClient)
+            soap_fault = None
+            try:
+                tmp = self._msg_reader.read_received_message(xml_response.encode('utf-8'))
+                soap_fault = Fault.from_node(tmp.p_msg.msg_node)
+            except Exception:  # noqa: BLE001, S110
+                pass
+            raise HTTPReturnCodeError(resp.status, resp.reason, soap_fault)
         if not xml_response:  # empty response
             return None
 
